@@ -14,7 +14,7 @@
    by `error_flag`, at which `context.linenum` each message is located, the include chain printed
    before it, the per-file and total error counts, whether the report runs, the exit status.
    Definitions only; proofs are in Proofs/ErrorsProofs.v. *)
-From LedgerV Require Import Base.Prelude Gen.StatusOfCount.
+From LedgerV Require Import Base.Prelude Gen.StatusOfCount Gen.CheckingStyle.
 Local Open Scope Z_scope.
 
 (* ---- input shape ---------------------------------------------------------------------- *)
@@ -291,3 +291,87 @@ Fixpoint line_clean (l : line) : bool :=
 
 Definition file_clean (ls : list line) : bool :=
   forallb item_ok (items ls) && forallb line_clean ls.
+
+(* ---- checking options: which names and assertions are errors ------------------------------
+   session_t::read_data turns the options into journal->checking_style by an else-if chain whose
+   ORDER is regenerated from the source (Gen/CheckingStyle.v: style_chain); journal.cc
+   register_account / register_commodity / register_metadata / validate_payee throw under
+   CHECK_ERROR, warn under CHECK_WARNING and say nothing otherwise; payees only with
+   --check-payees; read_textual passes no_assertions = (style == CHECK_PERMISSIVE) to the
+   reader, which then accepts a balance assertion that is off. *)
+Record opts := mk_opts {
+  o_strict : bool; o_pedantic : bool; o_permissive : bool; o_check_payees : bool
+}.
+
+Definition handled (o : opts) (c : copt) : bool :=
+  match c with
+  | OPermissive => o_permissive o
+  | OPedantic => o_pedantic o
+  | OStrict => o_strict o
+  end.
+
+Fixpoint style_from (chain : list (copt * cstyle)) (o : opts) : cstyle :=
+  match chain with
+  | [] => style_default
+  | (c, st) :: r => if handled o c then st else style_from r o
+  end.
+
+Definition checking_style (o : opts) : cstyle := style_from style_chain o.
+
+Inductive name_kind : Type := NAccount | NCommodity | NTag | NPayee.
+Inductive reaction : Type := RError | RWarning | RQuiet.
+
+Definition style_reaction (st : cstyle) : reaction :=
+  match st with SError => RError | SWarning => RWarning | _ => RQuiet end.
+
+Definition payees_checked (o : opts) : bool :=
+  if payees_checked_only_on_request then o_check_payees o else true.
+
+(* what the use of an undeclared name does *)
+Definition unknown_name_reaction (o : opts) (nk : name_kind) : reaction :=
+  match nk with
+  | NPayee => if payees_checked o then style_reaction (checking_style o) else RQuiet
+  | _ => style_reaction (checking_style o)
+  end.
+
+(* what the harness says about a line before the options are known *)
+Inductive ann : Type :=
+| AThrow (k : Z)                          (* rejected whatever the options: class k *)
+| AUnknown (nk : name_kind) (k : Z)       (* uses an undeclared name *)
+| ABalAssert (k : Z).                     (* carries a balance assertion that is off *)
+
+Definition resolve_ann (o : opts) (a : ann) : option Z :=
+  match a with
+  | AThrow k => Some k
+  | AUnknown nk k => match unknown_name_reaction o nk with RError => Some k | _ => None end
+  | ABalAssert k => match checking_style o with SPermissive => None | _ => Some k end
+  end.
+
+(* the checks of one line happen in the order given: the first that throws is the line's error *)
+Fixpoint first_throw (o : opts) (l : list ann) : option Z :=
+  match l with
+  | [] => None
+  | a :: r => match resolve_ann o a with Some k => Some k | None => first_throw o r end
+  end.
+
+Inductive rline : Type :=
+| RLEmpty
+| RLWs
+| RLSub (a : list ann)
+| RLItem (a : list ann) (block : bool) (fin : list ann)
+| RLInclude (name : Z) (body : list rline).
+
+Fixpoint resolve (o : opts) (l : rline) {struct l} : line :=
+  match l with
+  | RLEmpty => LEmpty
+  | RLWs => LWs
+  | RLSub a => LSub (first_throw o a)
+  | RLItem a block fin => LItem (first_throw o a) block (first_throw o fin)
+  | RLInclude name body => LInclude name (map (resolve o) body)
+  end.
+
+Definition resolve_files (o : opts) (files : list (Z * list rline)) : list (Z * list line) :=
+  map (fun f => (fst f, map (resolve o) (snd f))) files.
+
+Definition run_session (o : opts) (files : list (Z * list rline)) : result :=
+  session (resolve_files o files).
